@@ -650,6 +650,7 @@ class Sched:
         self.recorded = []
         self.remaining = 0
         self.stall = spec.get("stall")
+        self.focus = bool(spec.get("focus_conflicts"))
         self.done_lock = _thread.allocate_lock()
         self.done_lock.acquire()
         self.max_steps = int(spec.get("max_steps", 30_000_000))
@@ -711,7 +712,6 @@ class Sched:
             else:
                 self.recorded.append([cur.name, b])
             return
-        self.recorded.append([nxt.name, b])
         if frame is not None:
             co = frame.f_code
             cur.site = f"{os.path.basename(co.co_filename)}:{frame.f_lineno}"
@@ -720,6 +720,12 @@ class Sched:
         else:
             cur.site = cur.func = "boundary"
             cur.shared = False
+        if self.explicit is None and self.focus and cur.shared and nxt.shared and cur.func.split(":")[0] == nxt.func.split(":")[0]:
+            # both clients are inside the same module of shared-state code: switch
+            # densely while that lasts (conflict-directed scheduling, per-run knob)
+            b = min(b, 1 + self.rng.randrange(6))
+            self.remaining = b
+        self.recorded.append([nxt.name, b])
         sim.switches += 1
         sim.sw_sig.update(f"{cur.name}@{cur.site}>{nxt.name}@{nxt.site};".encode())
         if cur.in_op and nxt.in_op and cur.shared and nxt.shared:
